@@ -32,20 +32,25 @@ ASSUMPTIONS = [
   "oracle: vt/gen_ttml.py to_docspec (TTML2 12.2 / SMIL par-seq timing, 10.4 style resolution order, IMSC default font family) + vt/ref_isd.py",
   "model elements are given ids by a positional walk against the expected tree (the reader does not keep xml:id); elements that are never "
   "active (zero duration, never begin) may be present or absent; a structural mismatch is reported as structure:* and ends the comparison",
-  "main parts avoid by construction: the triggers of findings R-1 / R-2 (exercised by parts r1 / r2), set children in seq containers, "
-  "end < begin where an implicit duration depends on it, textShadow without blur and colour, tts:extent=auto (part values), "
-  "tts:textAlign left/right only in documents without rtl / vertical writing, px lengths only with tts:extent on tt",
+  "main parts avoid by construction: the trigger of finding R-2 (seq child after an indefinite sibling: part r2), set children in seq "
+  "containers, end < begin where an implicit duration or a seq sibling depends on it, textShadow colours in rgb()/rgba() form, "
+  "tts:extent=auto and one-letter unquoted font families (part values), tts:textAlign left/right only in documents without rtl / "
+  "vertical writing, px lengths only with tts:extent on tt, frame / tick syntax only with ttp:frameRate / ttp:tickRate present",
+  "documents containing the trigger of finding R-1 (fixed by 7b226c4) are generated everywhere; their failures are reported under one bucket",
   "not asserted: winner among simultaneously active set elements with different values on one property; white-space collapsing beyond "
-  "the non-white-space characters of each text node; foreign-namespace attributes need not be logged",
+  "the non-white-space characters of each text node; foreign-namespace attributes need not be logged; the default tick rate when "
+  "ttp:tickRate is absent and a frame rate is given",
+  "structural choices of a description come from random.Random seeded with one Hypothesis-drawn integer (see gen_ttml.st); style values "
+  "are Hypothesis draws",
 ]
 
 TIMING = gen_ttml.profile(p_time=0.38, p_seq=0.3, attrs=(0, 1), n_styles=(1, 3), style_refs=(0, 1), elem_refs=(0, 2), initials=(0, 1),
-                          regions=(0, 2), nested=(0, 1), sets=(0, 0, 0, 1), max_nodes=26,
+                          regions=(0, 2), nested=(0, 1), sets=(0, 0, 0, 1), max_nodes=26, avoid_r1=False,
                           props=["Color", "BackgroundColor", "Display", "Opacity", "FontSize", "TextAlign", "Visibility", "Extent", "Origin",
                                  "FontStyle", "TextDecoration"])
 STYLING = gen_ttml.profile(p_time=0.12, p_seq=0.15, attrs=(0, 3), n_styles=(3, 7), style_attrs=(1, 3), style_refs=(0, 2), elem_refs=(0, 3),
                            initials=(0, 2), regions=(1, 3), nested=(0, 2), sets=(0, 0, 1, 2), max_nodes=16, fanout=2, ruby=True,
-                           p_missing_ref=0.08)
+                           p_missing_ref=0.08, avoid_r1=False)
 R1 = gen_ttml.profile(p_time=0.45, p_seq=0.15, attrs=(0, 0), n_styles=(0, 0), elem_refs=(0, 0), initials=(0, 0), regions=(0, 1),
                       sets=(0,), max_nodes=14, avoid_r1=False, force_r1=True, props=["Color"], preserve=False, langs=False, p_inverted=0)
 R2 = gen_ttml.profile(p_time=0.3, p_seq=0.6, attrs=(0, 0), n_styles=(0, 0), elem_refs=(0, 0), initials=(0, 0), regions=(0, 1),
@@ -263,6 +268,8 @@ def check(case, res):
   xml_text = gen_ttml.to_xml(desc)
   rich = classify(desc, info, res)
   res.evals = 1
+  if info["r2_sites"]:
+    res.label("known:r2-site")
   if info["ambiguous"]:
     res.label("skipped:ambiguous-inverted-interval")   # only reachable through shrinking: the generator repairs these
     return
@@ -273,28 +280,27 @@ def check(case, res):
       res.label("exotic:" + desc["exotic"])
       res.fail("value:crash:%s:%s" % (type(e).__name__, desc["exotic"]), "%s: %s" % (type(e).__name__, e))
     elif isinstance(e, TypeError) and info["r2_sites"]:
-      res.label("known:r2-site")
       res.fail(R2_BUCKET, "%s: %s (seq children %r follow a sibling without a definite end)" % (type(e).__name__, e, info["r2_sites"]))
     else:
       res.crash(e, "read:")
     return
-  if info["r1_sites"] or desc.get("exotic"):
-    # documents containing the trigger of finding R-1 (or one of the value shapes of part values) are judged as a whole under one
-    # bucket named after the trigger
-    res.label("known:r1-site" if info["r1_sites"] else "exotic:" + desc["exotic"])
-    sub = Res()
-    n, shown = compare_doc(doc, spec, desc, sub)
-    res.labels.update(sub.labels)
-    res.evals += n
-    if shown:
-      res.label("presents-content")
-    if sub.fails and info["r1_sites"]:
-      res.fail(R1_BUCKET, "offset par containers %r without dur/end: %s %s" % (info["r1_sites"], sub.fails[0][0], sub.fails[0][1]))
-    elif sub.fails:
-      res.fail("value:%s" % desc["exotic"], "%s %s" % (sub.fails[0][0], sub.fails[0][1]))
-    return
-  n, shown = compare_doc(doc, spec, desc, res)
+  collapse = None
+  if info["r1_sites"]:
+    # finding R-1 (fixed in the tree by 7b226c4): documents containing its trigger are judged as a whole under the finding's own
+    # bucket, so that a regression shows up as one root cause and not as a flood of presence / structure buckets
+    res.label("known:r1-site")
+    collapse = R1_BUCKET
+  elif desc.get("exotic"):
+    res.label("exotic:" + desc["exotic"])
+    collapse = "value:%s" % desc["exotic"]
+  sub = Res() if collapse else res
+  n, shown = compare_doc(doc, spec, desc, sub)
   res.evals += n
+  if collapse:
+    res.labels.update(sub.labels)
+    if sub.fails:
+      res.fail(collapse, "%s%s %s" % ("offset par containers %r without dur/end: " % info["r1_sites"] if info["r1_sites"] else "",
+                                      sub.fails[0][0], sub.fails[0][1]))
   if shown:
     res.label("presents-content")
   if rich and shown:
@@ -643,7 +649,8 @@ PARTS = {
                  required_labels=("feat:offset-container", "feat:seq>=2", "feat:dur", "feat:dur+end", "feat:implicit-end", "feat:syn:f",
                                   "feat:syn:t", "feat:syn:clockf", "feat:syn:clock", "feat:syn:ms", "feat:syn:h", "feat:syn:m",
                                   "feat:frameRateMultiplier", "feat:set", "feat:text-in-seq", "feat:anonymous-span", "feat:zero-duration",
-                                  "feat:chain>=2", "depth:4", "ns:default", "ns:prefixed", "presents-content")),
+                                  "feat:chain>=2", "depth:4", "ns:default", "ns:prefixed", "presents-content", "known:r1-site",
+                                  "feat:inverted", "feat:comment-or-pi-in-text")),
   "styling": Part("styling", check, strategy=cases(STYLING), n=(320, 32000), shrinker=simplifications,
                   required_labels=("feat:chain>=2", "feat:chain>=3", "feat:later-ref-overrides", "feat:nested", "feat:nested-overrides-ref",
                                    "feat:inline-overrides", "feat:missing-ref", "feat:initial", "feat:ruby", "feat:set",
